@@ -1,8 +1,9 @@
 (* C02 - The best alignment has minimal disorder among all alignments; pruning never changes the minimum.
    Costs are the integer-scaled pair-cost sums; the alignment disorder is al_sum / (C(n,2) * mean units per annotator),
    a positive constant factor of it (C02_normalisation_monotone). *)
-From Coq Require Import List Arith ZArith QArith.
+From Coq Require Import String List Arith ZArith QArith Bool Lia.
 From PGA Require Import Align.Tuples Align.Cover Align.Inst Align.CoverProofs Align.PartProofs Align.CandProofs Align.OptProofs.
+From PGAprops Require Import IlpGen KernelGen.
 Import ListNotations.
 Local Close Scope Q_scope.
 
@@ -44,3 +45,23 @@ Example C02_example :
   (exists l, opt_partition ex2 (candidates ex2) = Some (3%Z, l)) /\
   no_better true ex2 (candidates ex2) 3 = true /\ no_better true ex2 (candidates ex2) 4 = false /\ (0 <= de ex2)%Z.
 Proof. split; [eexists; vm_compute; reflexivity|]. split; [vm_compute; reflexivity|]. split; [vm_compute; reflexivity|]. vm_compute; discriminate. Qed.
+
+(* ---------------------------------------------------------------------------------------------------------------------------------
+   Tie to the source (re-proved on every run against genprops/KernelGen.v and IlpGen.v): the pruning theorem is about the cut and keep test
+   the source computes - a tuple is kept by the code exactly when it passes the model's cut, so C02_pruning_sound / C02_best_is_minimal speak
+   of the candidates the code offers - and the program minimises disorders . x over 0/1 vectors with A x = 1 (rows 3, 4 and 6 of the table). *)
+Lemma C02_c2n_src n : c2n_src (Z.of_nat n) = Z.of_nat (c2n n).
+Proof.
+  unfold c2n_src, c2n. rewrite Nat2Z.inj_div, Nat2Z.inj_mul. destruct n as [|n]; [reflexivity|].
+  rewrite Nat2Z.inj_sub by lia. reflexivity.
+Qed.
+Theorem C02_src_kept_iff_passes I t : keep_src (criterium_src (de I) (Z.of_nat (nann I))) (ua_sum I t) = passes I t.
+Proof.
+  unfold criterium_src, keep_src, passes, cut. cbv zeta. fold (c2n_src (Z.of_nat (nann I))). rewrite C02_c2n_src. reflexivity.
+Qed.
+Theorem C02_src_objective :
+  map snd (firstn 2 (skipn 3 best_ilp_src)) =
+  ["cp.Variable(shape=(n,), boolean=True)"; "import cylp; cp.Problem(cp.Minimize(disorders.T @ x), [A @ x == 1]).solve(solver=cp.CBC)"]%string /\
+  map snd (firstn 1 (skipn 6 best_ilp_src)) =
+  ["matmul = A @ x; cp.Problem(cp.Minimize(disorders.T @ x), [1 <= matmul, matmul <= 1]).solve(solver=cp.GLPK_MI)"]%string.
+Proof. split; reflexivity. Qed.
